@@ -379,6 +379,17 @@ func (st *story) honest(faultP, crashP int) {
 			st.timed[0] = signers[0].String() + "/" + st.window(0)
 		}
 		signers = nil
+	} else if r.Chance(1, 8) && len(signers) > 0 {
+		// RRSIGs made with the signers' own key material, inside their window, but naming another
+		// zone as signer: all of them (nothing authenticates), or next to one regular signature
+		for _, k := range signers {
+			st.timed = append(st.timed, fmt.Sprintf("%s/%s/%d", k.String(), st.window(0), 1+r.Intn(3)))
+		}
+		if r.Chance(2, 3) {
+			signers = nil
+		} else {
+			signers = signers[:1]
+		}
 	}
 	if len(st.extras) == 0 && len(st.timed) == 0 && killBudget > 0 && crashP > 0 && r.Chance(1, 12) {
 		killBudget--
